@@ -1310,6 +1310,12 @@ class ContactHandler(Messenger, dbus.service.Object):
             self._logger.info('Closing in terminating state')
             self.close()
 
+    def recv_raw(self, data):
+        Messenger.recv_raw(self, data)
+        # the peer's SESS_TERM may have been followed by further messages in
+        # the same read, which kept the session from counting as idle then
+        self._check_sess_term()
+
     def recv_sess_term(self, reason):
         Messenger.recv_sess_term(self, reason)
 
